@@ -9,11 +9,12 @@ import json
 import vlib
 from checks import termination_common as tc
 
-NSIM = {"quick": (500, 120), "thorough": (9000, 2500)}
+NSIM = {"quick": (400, 100), "thorough": (9000, 2500)}
 WEAK = {"Termination_WeakDeleteOk.cfg": "Act_C09_NodeFinalizer", "Termination_WeakVolumes.cfg": "Act_C09_NodeFinalizer",
         "Termination_WeakDrain.cfg": "Act_C09_NodeFinalizer", "Termination_WeakTaint.cfg": "Act_C09_NodeFinalizer",
         "Termination_WeakClaimNodes.cfg": "Act_C09_ClaimFinalizer",
-        # the finalize path as the code has it / a restart after the failed status patch: the model itself shows the leak
+        "Termination_WeakDrainCached.cfg": "Act_C09_NodeFinalizer", "Termination_WeakDetaching.cfg": "Act_C09_NodeFinalizer",
+        # the finalize path as the code had it before the fix of F-C09-1 / a restart after the failed status patch: the model itself shows the leak
         "Termination_Defect.cfg": "Inv_C09_NoLeak", "Termination_DefectRestart.cfg": "Inv_C09_NoLeakStrict"}
 
 
@@ -29,7 +30,9 @@ def check(run):
                 "+ failing launch patches; each replayed on the real lifecycle, node-termination controllers and eviction queue; "
                 "non-trivial = the real trace contains a finalizer-removing patch of the Node or the NodeClaim by Karpenter")
     thorough = run.tier == "thorough"
-    models = ["Termination_MC.cfg"] + (["Termination_MCfine.cfg", "Termination_MCbig.cfg", "Termination_Live.cfg"] if thorough else [])
+    models = ["Termination_MC.cfg", "Termination_MClate.cfg"] + (
+        ["Termination_MCfine.cfg", "Termination_MCfinelate.cfg", "Termination_MCbig.cfg", "Termination_MClatebig.cfg", "Termination_Live.cfg"]
+        if thorough else [])
     tc.parallel_tlc(run, "Termination", models, WEAK, coverage=thorough, workers=6 if thorough else 4)
     behs = behaviours(run)
     files = tc.record(run, behs)
@@ -43,7 +46,9 @@ def check(run):
                         "optimistic-lock patches, field-indexed lists); the harness provider moves instances running -> terminating -> gone",
                         "reconciles run without foreign steps in between (coarse granularity); the fine-grained interleaving is "
                         "checked on the closed model only (Termination_MCfine.cfg, thorough tier)",
-                        "only pods tolerating karpenter.sh/disrupted:NoSchedule bind to a node under termination (kube-scheduler honours the taint)",
+                        "pods may be bound to the node at any time between reconciles (tolerating ones, and non-tolerating ones bound directly with "
+                        "spec.nodeName); the drain answers for every pod bound before the finalizer-removing reconcile listed the node's pods",
+                        "a VolumeAttachment blocks as long as the object exists (a deletionTimestamp means the detach is still in progress)",
                         "'provider confirms the instance gone' = some Delete/Get for that provider id answered NotFound to Karpenter",
                         "a VolumeAttachment blocks unless its volume belongs to a pod on the node that Karpenter cannot drain"]
 
